@@ -266,8 +266,8 @@ where
 
         let mut data = unsafe { vec.as_mut_bytes() };
         let mut pos = 0;
-        // Slot of the previous item (currently marked as the last one) and the extent to seal it with.
-        let mut prev = None::<(&mut [u8], L)>;
+        // Slot of the previous item (currently marked as the last one), the extent to seal it with and its position.
+        let mut prev = None::<(&mut [u8], usize, usize)>;
 
         // Start from the empty state, so that a failure below always leaves a valid vector behind.
         L::zero().emplace(data)?;
@@ -279,22 +279,28 @@ where
                     pos,
                 });
             }
+            // Only an item that gets a successor needs a stored extent (the last one stays open, like after `push`).
+            let prev_sealed = match &prev {
+                Some((_, prev_offset, prev_pos)) => Some(
+                    L::from_usize(*prev_offset)
+                        .and_then(|o| if o < L::max_value() { Some(o) } else { None })
+                        .ok_or(Error {
+                            kind: ErrorKind::InsufficientSize,
+                            pos: *prev_pos,
+                        })?,
+                ),
+                None => None,
+            };
             let (offset_slot, payload) = data.split_at_mut(offset_size);
             let item = item_emplacer.emplace(payload)?;
             let payload_size = ceil_mul(item.size(), FlexVec::<T, L>::ALIGN);
             let offset = offset_size + payload_size;
-            let sealed = L::from_usize(offset)
-                .and_then(|o| if o < L::max_value() { Some(o) } else { None })
-                .ok_or(Error {
-                    kind: ErrorKind::InsufficientSize,
-                    pos,
-                })?;
             // The new item becomes the last one, then the previous one gets its real extent.
             L::max_value().emplace(offset_slot)?;
-            if let Some((prev_slot, prev_offset)) = prev.take() {
-                prev_offset.emplace(prev_slot)?;
+            if let (Some((prev_slot, ..)), Some(sealed)) = (prev.take(), prev_sealed) {
+                sealed.emplace(prev_slot)?;
             }
-            prev = Some((offset_slot, sealed));
+            prev = Some((offset_slot, offset, pos));
 
             data = payload.split_at_mut(payload_size).1;
             pos += offset;
